@@ -310,7 +310,8 @@ class Resolver:
         q = self.p.resolve_expr_qname(ctx.func.module, type_expr)
         if q is None:
             return ['unknown.' + ast.unparse(type_expr)]
-        return [q]
+        from .model import EXC_ALIASES
+        return [EXC_ALIASES.get(q, q)]
 
     def _attr_of(self, t, attr: str, ctx: Ctx) -> Set:
         p = self.p
